@@ -27,6 +27,8 @@ def random_call(rng):
             c["full"] = False
         if rng.random() < 0.08:
             c["missing_file"] = 1
+        if c.get("sink") == "file" and rng.random() < 0.4:
+            c["bad_dir"] = True
         return c
     if r < 0.5:
         c = {"fn": "convert_generator", "glycan_list": [g() for _ in range(rng.randint(0, 4))]}
@@ -34,6 +36,8 @@ def random_call(rng):
             c["verbose_none"] = 1
         if rng.random() < 0.4:
             c["take"] = 1
+        elif rng.random() < 0.35:
+            c["unstarted"] = rng.choice(["drop", "close", "islice0"])
         if rng.random() < 0.3:
             c["generator"] = [g() for _ in range(rng.randint(0, 3))]
         return c
@@ -106,6 +110,16 @@ def run(rep, tier, driver):
             histories.append([dict({"fn": "convert", "glycan_list": [g, "Gal"]}, **a), dict({"fn": "convert", "glycan_list": ["Gal", g]}, **b),
                               dict({"fn": "convert_generator", "glycan_list": [g]}, **b), dict({"fn": "convert", "glycan": g}, **a),
                               {"fn": "glycan", "iupac": g, "opts": b, "methods": [["get_smiles"]]}, dict({"fn": "convert_generator", "glycan_list": [g, g]}, **a)])
+    # generators that are never advanced (nothing may happen, the logger switch included), and the fall-back to stdout when the
+    # directory of the output file does not exist (the host's stdout must stay open), followed by ordinary calls
+    for how in ("drop", "close", "islice0"):
+        histories.append([{"fn": "convert_generator", "glycan_list": ["Glc", "Man(a1-4)Glc"], "verbose_none": 1, "unstarted": how},
+                          {"fn": "convert", "glycan": "Gal", "verbose_none": 1},
+                          {"fn": "convert_generator", "glycan_list": ["Glc"], "generator": ["Gal", "Xyz"], "verbose_none": 1, "unstarted": how},
+                          {"fn": "convert_generator", "glycan_list": ["Glc"]}])
+    histories.append([{"fn": "convert", "glycan_list": ["Glc", "Man(a1-4)Glc"], "sink": "file", "bad_dir": True, "verbose_none": 1},
+                      {"fn": "convert", "glycan": "Gal", "sink": "stdout", "verbose_none": 1},
+                      {"fn": "convert", "glycan": "Gal", "sink": "file", "bad_dir": True}])
     rep.rule = ("random call histories (convert, convert_generator incl. abandoned generators, Glycan construction + get_smiles/summary/count/"
                 "save_dot/get_tree in random order; good and failing inputs; verbose=None, file/stdout sinks, missing file) executed in one fresh "
                 "interpreter, and every call of every history executed alone in its own fresh interpreter; Spec: identical result, root logger "
@@ -150,6 +164,9 @@ def run(rep, tier, driver):
                     seen_m.setdefault(mk, r)
             if o["logger_disabled"]:
                 rep.violation("history", {"history": h[:i + 1], "position": i}, {"logger_disabled": True}, {"logger_disabled": False}, key="logger:" + k[:300])
+            if o.get("stdout_closed"):
+                rep.violation("history", {"history": h[:i + 1], "position": i}, {"sys.stdout.closed": True},
+                              {"sys.stdout.closed": False, "note": "the fall-back to stdout must leave the host's stdout open"}, key="stdout-closed:" + k[:300])
             if o["tables"] != ref["tables"] or ref["tables"] != tables0:
                 rep.violation("history", {"history": h[:i + 1], "position": i}, {"tables": o["tables"]}, {"tables": tables0, "note": "class-level monomer tables must not change"},
                               key="tables:" + k[:300])
@@ -180,7 +197,7 @@ def model_world(rep, driver, distinct, alone):
     n = bad = 0
     for k, c in distinct.items():
         o = alone[k]
-        if c["fn"] not in ("convert", "convert_generator") or c.get("missing_file") or c.get("take") is not None or o.get("exc"):
+        if c["fn"] not in ("convert", "convert_generator") or c.get("missing_file") or c.get("take") is not None or o.get("exc") or c.get("unstarted") or c.get("bad_dir"):
             continue
         # per-glycan outcomes as observed (the conv parameter of the model): from the returned pairs, or from the listing lines
         inputs = ([c["glycan"]] if "glycan" in c and not (isinstance(c["glycan"], dict) and "none" in c["glycan"]) else []) + \
